@@ -132,7 +132,7 @@ def G(name, src, entry, enforce=None, replace=None, link=None, defs=None, loops=
       unwind=None, unwindset=None, flags=None, tier="quick", bounded=None, timeout=300,
       mem=12, functions=None, finding=None, replay="native", solver=None, noreach=False,
       stubs=None, object_bits=None, note=None, selftest=None, only_finding=None,
-      enforce_none=False, genbody=None, cflags=None, dfcc=True):
+      enforce_none=False, genbody=None, cflags=None, dfcc=True, replace_calls=None):
     enforce = enforce or []
     if isinstance(enforce, str):
         enforce = [enforce]
@@ -143,7 +143,7 @@ def G(name, src, entry, enforce=None, replace=None, link=None, defs=None, loops=
                  finding=finding, replay=replay, solver=solver, noreach=noreach,
                  stubs=stubs or [], object_bits=object_bits, note=note,
                  selftest=selftest, only_finding=only_finding, enforce_none=enforce_none,
-                 genbody=genbody, cflags=cflags or [], dfcc=dfcc)
+                 genbody=genbody, cflags=cflags or [], dfcc=dfcc, replace_calls=replace_calls or [])
 
 
 def load_checks(pid):
@@ -191,6 +191,17 @@ def build_group(g, gen, wd, extra_defs=()):
         txt = r["err"] + r["out"]
         errs = [l for l in txt.splitlines() if "error" in l.lower()]
         raise Undecided("goto-cc link failed for %s: %s" % (g.name, " | ".join(errs[:4]) or txt[-1500:]))
+    if g.get("replace_calls"):
+        # calls to a function that is out of reach (e.g. the formula parser) are redirected to an
+        # oracle defined in the harness: goto-instrument --replace-calls f:g
+        a3 = os.path.join(wd, "a_rc.gb")
+        cmdrc = ["goto-instrument"]
+        for fg in g.replace_calls:
+            cmdrc += ["--replace-calls", fg]
+        r = run(cmdrc + [a, a3], timeout=600, mem_gb=12)
+        if r["rc"] != 0:
+            raise Undecided("goto-instrument --replace-calls failed for %s: %s" % (g.name, (r["err"] + r["out"])[-800:]))
+        a = a3
     if g.genbody:
         # havoc-with-frame bodies for callees that live in other translation units:
         # genbody = (regex of function names, options), e.g. "havoc,globals:(ErrorCount|Repass)"
@@ -568,6 +579,9 @@ def run_check(pid, tier, jobs=None, only=None, keep=False):
                 ev_groups.append(summary)
                 continue
             counted = [o for o in ob if o["kind"] in ("contract", "safety", "internal-safety")]
+            flt = getattr(mod, "OBLIGATION_FILTER", None)
+            if flt:
+                counted = [o for o in counted if flt(o)]
             failed = [o for o in counted if o["status"] == "FAILURE"]
             unknown = [o for o in counted if o["status"] not in ("SUCCESS", "FAILURE")]
             internal_failed = [o for o in ob if o["kind"] == "internal" and o["status"] == "FAILURE"]
